@@ -127,15 +127,16 @@ func genericPostfix(tok token.Token, left ast.Expression) ast.Expression {
 }
 
 type parseSetup struct {
-	flags   string
-	tokI    int
-	stmtI   []int
-	exprI   []string // o<id> / r<id>
-	ops     []customOp
-	install bool // install through plugins
-	rebuild int  // number of parsers built (and run) from the same builder before the one that is observed
-	nested  string // a snippet that a statement interceptor parses with a second parser built from the same builder, mid-parse
-	queryAt func(token.Type) bool // nil: the observers query the context at every step; else only at these current tokens
+	flags     string
+	tokI      int
+	stmtI     []int
+	exprI     []string // o<id> / r<id>
+	ops       []customOp
+	install   bool                  // install through plugins
+	rebuild   int                   // number of parsers built (and run) from the same builder before the one that is observed
+	nested    string                // a snippet that a statement interceptor parses with a second parser built from the same builder, mid-parse
+	queryAt   func(token.Type) bool // nil: the observers query the context at every step; else only at these current tokens
+	pluginCtx bool                  // the first statement interceptor is also a plugin that keeps a context of its own on the stack while a `while` statement is parsed
 }
 
 type parseOutcome struct {
@@ -209,6 +210,11 @@ func runParse(su parseSetup, src string) parseOutcome {
 				}
 				if su.queryAt == nil || su.queryAt(p.CurrentToken.Type) {
 					out.trace = append(out.trace, eventStr("S", id, p))
+				}
+				if su.pluginCtx && id == 0 && p.CurrentToken.Type == token.WHILE {
+					// PushContext / PopContext are exported for plugins that introduce constructs of their own
+					p.PushContext(parser.ContextType(40))
+					defer p.PopContext()
 				}
 				return next()
 			})
